@@ -14,7 +14,7 @@ ACCID = {0: None, 1: "s", -1: "f", 2: "ss", -2: "ff"}
 
 def sym_to_mei(sym):
     """abstract symbolic duration -> (dur, dots, (num, numbase) or None)"""
-    typ = {"whole": "1", "half": "2", "quarter": "4", "eighth": "8", "16th": "16", "32nd": "32"}[sym["type"]]
+    typ = {"whole": "1", "half": "2", "quarter": "4", "eighth": "8", "16th": "16", "32nd": "32", "breve": "breve", "long": "long"}[sym["type"]]
     tup = (sym["actual_notes"], sym["normal_notes"]) if sym.get("actual_notes") else None
     return typ, sym.get("dots", 0) or 0, tup
 
